@@ -571,3 +571,140 @@ def check_C13(ctx):
     ctx.coverage["samples"] = sample_of(scens, 3)
     ctx.coverage["evaluations"] = len(scens)
     ctx.coverage["distinct_nontrivial"] = len({s.text() for s in scens})
+
+
+# ---- C06 / C07: mocks ---------------------------------------------------------------------------
+from mock_checks import *
+
+
+def mocks_bench(ctx, asan=False):
+    impl = build_impl(ctx, asan=asan)
+    exe = compile_harness(ctx, impl, "mock_ops", ["mock_ops.c"])
+    return impl, exe
+
+
+def mocks_explore(ctx, exe, blocks, label, env=None):
+    """impl vs model (outputs and queue state after every step) and impl vs per-function specification."""
+    impl, rc, err = run_impl_ops(exe, blocks, env=env)
+    if rc != 0 or len(impl) < len(blocks):
+        # the driver died: find the history, shrink it, report the sanitizer's verdict
+        k = min(len(impl), len(blocks) - 1)
+        bad = [o for o in blocks[k] if o]
+
+        def crashes(cand):
+            _, rc2, _ = run_impl_ops(exe, [cand], env=env)
+            return rc2 != 0
+        if crashes(bad):
+            # drop whole prefixes/suffixes first (long histories), then single operations
+            step = max(1, len(bad) // 2)
+            while step >= 1:
+                i = 0
+                while i < len(bad):
+                    cand = bad[:i] + bad[i + step:]
+                    if cand and crashes(cand): bad = cand
+                    else: i += step
+                step //= 2
+        _, rc2, err2 = run_impl_ops(exe, [bad], env=env)
+        summary = " ".join(l.strip() for l in (err2 or err).split("\n") if "ERROR:" in l or "SUMMARY:" in l or l.strip().startswith("#0") or l.strip().startswith("#1 "))[:400]
+        ctx.violation(f"[{label}] the mock machinery crashed (exit {rc2 or rc}) on a history of {len(bad)} operations: {summary}",
+                      "# feed to harness/mock_ops (ASan/UBSan build)\n" + "\n".join(bad), found_input=True,
+                      facts={"crash": True, "len": len(bad), "vector_remove": "cgreen_vector_remove" in (err2 or err), "size100": len(bad) >= 100})
+        return
+    model = run_model_ops("mocks", blocks)
+    spec = run_model_ops("mockspec", blocks)
+    ndis = nspec = 0
+    for ops, a, m, s in zip(blocks, impl, model, spec):
+        ops = [o for o in ops if o]
+        i = first_diff(ops, m, a, lambda l: (outs_of(l), queue_of(l)))
+        if i is not None:
+            ndis += 1
+            if ndis <= 3:
+                ctx.oblige(f"correspondence {label}: model and implementation agree after every operation", False,
+                           f"op #{i} `{ops[i] if i < len(ops) else '?'}`: model `{m[i] if i < len(m) else None}` impl `{a[i] if i < len(a) else None}`")
+        j = first_diff(ops, s, a, outs_of)
+        if j is not None:
+            nspec += 1
+            if nspec <= 4:
+                def fails(cand):
+                    ia, rc2, _ = run_impl_ops(exe, [cand], env=env)
+                    sa = run_model_ops("mockspec", [cand])
+                    return rc2 != 0 or first_diff(cand, sa[0], ia[0], outs_of) is not None
+                small = shrink_ops(ops, fails)
+                ia, _, _ = run_impl_ops(exe, [small], env=env)
+                sa = run_model_ops("mockspec", [small])
+                jj = first_diff(small, sa[0], ia[0], outs_of)
+                facts = {"times0": any(" t0" in o or " t-" in o for o in small), "ltgt": any(":lt:" in o or ":gt:" in o for o in small)}
+                what = f"operation #{jj} `{small[jj] if jj is not None and jj < len(small) else '?'}` reports {outs_of(ia[0][jj]) if jj is not None and jj < len(ia[0]) else None}; " \
+                       f"the per-function FIFO specification says {outs_of(sa[0][jj]) if jj is not None and jj < len(sa[0]) else None}"
+                ctx.violation(f"[{label}] {what}", "# feed to harness/mock_ops (built by ./check)\n" + "\n".join(small), found_input=True, facts=facts)
+    st = ctx.coverage.setdefault("correspondence", {"cases": 0, "disagreements": 0, "oracle_evaluations": 0, "oracle_failures": 0, "operations": 0})
+    st["cases"] += len(blocks); st["disagreements"] += ndis; st["oracle_evaluations"] += len(blocks); st["oracle_failures"] += nspec
+    st["operations"] += sum(len(b) for b in blocks)
+    return ndis, nspec
+
+
+def check_C06(ctx):
+    lean_check(ctx)
+    rng = random.Random(ctx.seed * 1000 + 6)
+    impl, exe = mocks_bench(ctx, asan=True)
+    blocks = [gen_history(rng, rng.choice([3, 6, 10, 20, 40])) for _ in range(sizes(ctx, 1500, 40000))]
+    blocks += [gen_long_history(rng, n) for n in ([99, 100, 101, 199, 200, 201, 350] if ctx.tier == "quick" else [98, 99, 100, 101, 102, 199, 200, 201, 299, 300, 301, 350, 450])]
+    # corpus of minimised past disagreements first
+    corpus = [["expect 0 t0 r8", "call 0", "tally"], ["expect 0 t0 r8", "expect 0 r9", "call 0", "call 0", "tally"],
+              ["expect 1 w0:lt:2", "call 1 3", "tally"], ["never 0", "never 0", "call 0", "tally"],
+              ["always 2 r5", "expect 2", "call 2 1 1", "tally"]]
+    r = mocks_explore(ctx, exe, corpus + blocks, "C06", env=asan_env())
+    if r:
+        ctx.oblige("correspondence C06: model and implementation agree after every operation of every history", r[0] == 0, f"{r[0]} histories disagree")
+    ctx.coverage["samples"] = [" ; ".join(b[:12]) for b in blocks[:3]]
+    ctx.coverage["evaluations"] = len(blocks) + len(corpus)
+    ctx.coverage["distinct_nontrivial"] = len({tuple(b) for b in blocks})
+    ctx.coverage["history_lengths"] = sorted({len(b) for b in blocks})[-8:]
+
+
+def conforms_family():
+    """Systematic families with an arithmetic oracle: (ops, expected all-pass?) under strict mocks."""
+    fam = []
+    for n in range(0, 7):
+        for k in range(0, 7):
+            calls = ["call 0"] * k
+            fam.append((["expect 0 t%d r3" % n] + calls + ["tally"], k == n, f"times({n}) with {k} calls"))
+            fam.append((["expect 0"] * n + calls + ["tally"], k == n, f"{n} expect() with {k} calls"))
+    for k in range(0, 5):
+        fam.append((["never 0"] + ["call 0"] * k + ["tally"], k == 0, f"never_expect with {k} calls"))
+        fam.append((["always 0 r1"] + ["call 0"] * k + ["tally"], True, f"always_expect with {k} calls"))
+        fam.append((["expect 1 w0:eq:2"] + ["call 1 2"] * k + ["tally"], k == 1, f"expect with eq constraint, {k} matching calls"))
+        fam.append((["always 1 w0:gt:1"] + ["call 1 %d" % (3 - v) for v in range(k)] + ["tally"], k <= 2, f"always_expect with gt 1 constraint, calls 3,2,1.. ({k} calls)"))
+        fam.append((["always 1 w0:lt:2"] + ["call 1 %d" % v for v in range(k)] + ["tally"], k <= 2, f"always_expect with lt constraint, calls 0..{k-1}"))
+    fam.append((["always 0", "expect 0", "tally"], False, "declaration after always_expect"))
+    fam.append((["never 0", "expect 0", "tally"], False, "declaration after never_expect"))
+    fam.append((["call 0", "tally"], False, "unexpected call (strict)"))
+    fam.append((["mode loose", "call 0", "tally"], True, "unexpected call (loose)"))
+    fam.append((["mode learning", "call 0", "tally"], True, "unexpected call (learning)"))
+    return fam
+
+
+def check_C07(ctx):
+    lean_check(ctx)
+    rng = random.Random(ctx.seed * 1000 + 7)
+    impl, exe = mocks_bench(ctx, asan=True)
+    fam = conforms_family()
+    res, rc, err = run_impl_ops(exe, [f[0] for f in fam], env=asan_env())
+    shown = 0
+    for (ops, should_pass, desc), out in zip(fam, res):
+        checks = [c for l in out for c in outs_of(l) if c.startswith("c")]
+        passed = all(c.endswith(":1") for c in checks)
+        rets = [c for l in out for c in outs_of(l) if c.startswith("r")]
+        if passed != should_pass and shown < 6:
+            shown += 1
+            ctx.violation(f"[C07] {desc}: the strict-mock test {'passes' if passed else 'fails'} (checks {checks}, returns {rets}) but calls made {'match' if should_pass else 'do not match'} calls declared",
+                          "# feed to harness/mock_ops\n" + "\n".join(ops), found_input=True,
+                          facts={"times0": any(" t0" in o for o in ops), "ltgt": any(":lt:" in o or ":gt:" in o for o in ops)})
+    ctx.coverage["systematic_family"] = len(fam)
+    blocks = [gen_history(rng, rng.choice([3, 6, 10, 20])) for _ in range(sizes(ctx, 1500, 40000))]
+    r = mocks_explore(ctx, exe, blocks, "C07", env=asan_env())
+    if r:
+        ctx.oblige("correspondence C07: model and implementation agree after every operation of every history", r[0] == 0, f"{r[0]} histories disagree")
+    ctx.coverage["samples"] = [" ; ".join(f[0]) for f in fam[:4]]
+    ctx.coverage["evaluations"] = len(blocks) + len(fam)
+    ctx.coverage["distinct_nontrivial"] = len({tuple(b) for b in blocks}) + len(fam)
